@@ -59,6 +59,9 @@ CHECKS['C18'] = ('property-based testing: validate()/compare_model vs an indepen
 CHECKS['C07'] = ('property-based testing with a differential numeric oracle: float vs full-integer interpreter runs on the calibration input, stated error bound',
   'Generated float models of depth <= 6 x every static-range config the policy accepts (as a "*" rule or per-op rules, including INPUT/OUTPUT quantization) x one calibration input that is also the test input: the dequantized outputs of the quantized model must stay within 4 output steps + phi*A of the float outputs (A = largest float activation; phi = 0.06 a8w8, 0.04 a16w8, 0.5 w4, at least 3x the largest error measured on the unchanged tree) and be finite; constant or entirely saturated outputs are reported as such when the bound is exceeded. One open finding (static BATCH_MATMUL with constant operand and CHANNELWISE weights gives garbage) is matched structurally.',
   'The bound is a magnitude statement, not tight: parameter errors below ~1% are C04\'s subject. Constants are drawn without outliers.', 'DESIGN.md 4 C07')
+CHECKS['C13'] = ('exhaustive enumeration of the finite (selector x config x algorithm) lattice + generated single-op models per accepted pair run through the pipeline and the interpreter with the C06/C07 numeric oracles',
+  'The whole lattice (25 selectors x 500 configs x 2 algorithms = 24 000 combinations) is enumerated: construction failures and refused specific-op updates must be ValueError and leave the recipe unchanged, the same pairs must resolve to no_quantize under "*" and accepted ones to the rule, accepted configs must have an execution mode; then for EVERY accepted pair k generated single-op models (k=3 quick, 24 thorough) are quantized with the pair as a specific-op rule or under "*", must quantize, prepare and invoke in the interpreter, and must satisfy exactly the C06 (float-compute) or C07 (static) numeric bound. Exhaustive over the lattice; sampled over models. Four open findings are matched structurally.',
+  'Default policy only; skip_checks excluded; numeric soundness is held to the C06/C07 bounds, never stricter.', 'DESIGN.md 4 C13')
 NOT_APPLICABLE = {}
 
 def main():
